@@ -271,7 +271,7 @@ class Gen:
         self.env[v] = None
 
     def st_class(self, ind=0):
-        name = "K%s" % self.fresh().capitalize()
+        name = "K%s" % self.fresh()
         parent = self.rng.choice([c[0] for c in self.classes]) if self.classes and self.rng.random() < 0.5 else None
         self.emit("class %s%s" % (name, " < " + parent if parent else ""), ind)
         ms = []
